@@ -1,5 +1,6 @@
 import Operon.Model.Proto
 import Operon.Model.Atp
+import Operon.Gen.MetabolismConsts
 /-! Line-protocol driver for the energy-ledger model (C04).
 
     new budget gtp nadh maxDebt rateNum rateDen      -> ok <id>
@@ -17,16 +18,24 @@ import Operon.Model.Atp
     every op line ends with ` | cb [id:state,…]`: the observer calls made during the call, in order -/
 open Operon Operon.Proto Operon.Atp
 
+/-- a decimal constant of the source as a double: the correctly rounded quotient `num / den` is the double the
+    Python literal denotes (both are the nearest double to the exact decimal) -/
+def constF (c : Option (Nat × Nat)) : Float :=
+  match c with
+  | some (n, d) => Float.ofNat n / Float.ofNat d
+  | none => 0.0 / 0.0      -- unrecognised constant: NaN, every comparison false
+
 /-- The IEEE-double computation of `_update_state` (Lean `Float` = C double = Python float for `/`, `*`, `-`
-    and comparisons; the three thresholds are the same doubles as the Python literals — the harness checks
-    both facts at start-up through `fcheck`). -/
+    and comparisons).  The three thresholds and the debt weight are the ones extracted from the source on this
+    run (`Operon.Gen.Metabolism`); the harness cross-checks the whole function on a boundary grid at start-up
+    through `fcheck`. -/
 def floatCls : Classifier := fun r p =>
   let q (x : Quo) : Float := Float.ofInt x.num / Float.ofInt x.den
   let ratio : Float := match r with | none => 0.0 | some x => q x
-  let ratio : Float := match p with | none => ratio | some x => ratio - (q x) * 0.5
-  if ratio <= 0.1 then .starving
-  else if ratio <= 0.3 then .conserving
-  else if ratio >= 0.9 then .feasting
+  let ratio : Float := match p with | none => ratio | some x => ratio - (q x) * constF Gen.Metabolism.debtWeight
+  if ratio <= constF Gen.Metabolism.starving then .starving
+  else if ratio <= constF Gen.Metabolism.conserving then .conserving
+  else if ratio >= constF Gen.Metabolism.feasting then .feasting
   else .normal
 
 def curOf : String → Option Cur
